@@ -85,6 +85,9 @@ def case_st(draw):
         # each ended in the drawn way before the judged connection is made
         # messages the server's connect handler sends: they travel with the OPEN packet
         'server_greets': draw(st.sampled_from([0, 0, 0, 1, 2, 3])),
+        # the caller's request_timeout (default 5): it bounds every single HTTP request, it is
+        # not part of the silence bound
+        'request_timeout': draw(st.sampled_from([5, 5, 5, 1, 20, 60])),
         'prelude': draw(st.sampled_from([[], [], [], ['cdisc'], ['sdisc'], ['drop'],
                                          ['drop', 'cdisc'], ['sdisc', 'drop']])),
     }
@@ -103,7 +106,9 @@ def check_case(case, ctx=None):
     cfg = {'ping_interval': I, 'ping_timeout': T, 'http_compression': False,
            'async_handlers': False}
     H = TClientHarness if impl == 'thread' else AClientHarness
-    h = H(cfg, faults=case['faults'], app_kwargs={'engineio_path': case['path']})
+    RT = case.get('request_timeout', 5)
+    h = H(cfg, faults=case['faults'], app_kwargs={'engineio_path': case['path']},
+          client_kwargs={'request_timeout': RT})
     cl = h.client
     ftrig = '+'.join(sorted('%s:%s' % (f['on'], f['kind']) for f in case['faults'])) or 'no-fault'
     try:
@@ -229,11 +234,15 @@ def check_case(case, ctx=None):
         check_wire_forms(h, impl, csent, rep)
         # silence detection
         if silence is not None:
-            limit = silence + I + T + 5 + 5 + 0.5
+            # (the disconnect event waits for the write loop: a POST that hangs holds it up for
+            # request_timeout; a long-poll alone never does)
+            slack = lambda: (RT if any(r['method'] == 'POST' and r.get('fault') == 'hang'  # noqa
+                                       for r in h.log.http) else min(RT, 5)) + 0.5
+            limit = silence + I + T + 5 + slack()
             if h.clock.now < limit + 1:
                 h.advance(limit + 1 - h.clock.now)
                 silence = silence_start(h, case)
-                limit = silence + I + T + 5 + 5 + 0.5
+                limit = silence + I + T + 5 + slack()
             disc = [(t, a) for t, e, a in h.log.events if e == 'disconnect']
             if not disc:
                 raise V(impl, 'silence-not-detected', '%s|%s' % (cl.transport(), ftrig),
